@@ -290,6 +290,27 @@ def generate(rng, run, tier):
         hist.append({'op': 'query', 'q': 'callfunc', 'f': nf, 'xk': 'inst', 'draw': 0, 'h': -1})
         nf += 1
         n = rng.randint(0, 4)
+    elif tmpl < 0.46:
+        # scenario: a function annotated by a name that is unbound at decoration time, then bound to something that is not a
+        # hint, called, and finally bound to a class: a failed resolution must not be remembered
+        name = rng.choice(['Later', 'Later2'])
+        text = rng.choice(['{N}', 'list[{N}]', 'Optional[{N}]', 'dict[str, {N}]']).format(N=name)
+        hist.append({'op': 'mkfunc', 'f': nf, 'text': text})
+        if rng.random() < 0.4:
+            hist.append({'op': 'query', 'q': 'callfunc', 'f': nf, 'xk': 'other', 'draw': 0, 'h': -1})     # while still unbound
+        hist.append({'op': 'define', 'n': name, 'junk': rng.choice([42, 3.5])})
+        for _ in range(rng.randint(1, 2)):
+            hist.append({'op': 'query', 'q': 'callfunc', 'f': nf, 'xk': rng.choice(['other', 'int']), 'draw': 0, 'h': -1})
+        if avoid_plain:
+            hist.append({'op': 'defdec', 'n': name, 'decorated': True})
+            defined_names[name] = True
+        else:
+            hist.append({'op': 'define', 'n': name})
+            defined_names[name] = False
+        for _ in range(rng.randint(1, 3)):
+            hist.append({'op': 'query', 'q': 'callfunc', 'f': nf, 'xk': rng.choice(['inst', 'inst', 'wrapped', 'other']), 'draw': 0, 'h': -1})
+        nf += 1
+        n = rng.randint(0, 4)
     elif tmpl < 0.7 and not avoid_repr:
         # scenario: two distinct classes with one qualified name, same hint shape over each
         s0 = rng.randrange(nslots)
